@@ -169,7 +169,17 @@ class Spell:
                 return f"std.map(function(x) x, {lit})"
             return lit
         fields = [(k, self.expr(x, depth + 1)) for k, x in v["o"]]
-        c = self.pick(5)
+        c = self.pick(7)
+        if c >= 5:
+            # hidden fields named like the *other* operands' visible fields, with values taken from this object
+            have = {k for k, _ in fields}
+            extra = []
+            for name in ["a", "b", "c", "d", "\u00e9"]:
+                if name not in have and self.pick(2) == 0:
+                    val = fields[self.pick(len(fields))][1] if fields and self.pick(2) == 0 else "1"
+                    extra.append(f"{JS(name)}:: {val}")
+            body = ", ".join([f"{JS(k)}: {e}" for k, e in fields] + extra)
+            return "{" + body + "}"
         if c == 1:
             fields = list(reversed(fields))
         body = ", ".join(f"{JS(k)}: {e}" for k, e in fields)
@@ -270,6 +280,9 @@ FIXED = [
     ("std.__compare_array([1], 1)", ERR), ("std.__compare_array([], [])", 0.0), ("std.equals({a: 1, b:: error 'x'}, {a: 1})", True),
     ("[1, 2, 3] < [1, 2]", False), ("[1, 2] < [1, 2, error 'x']", True), ("[] < [error 'x']", True), ("[error 'x'] == []", False),
     ("{a: error 'x'} == {b: 1}", False), ("{a: 1, b: error 'x'} == {a: 2, b: error 'x'}", False),
+    ("{a: 1, b:: 1} == {a:: 1, b: 1}", False), ("{k: 1, h:: 2} == {k:: 1, h: 3}", False), ("{k:: 1, h: 3} == {k: 1, h:: 2}", False),
+    ("{a: 1, b:: 1} != {a:: 1, b: 1}", True), ("std.equals({a: 1, b:: 2}, {b: 2, a:: 1})", False), ("{a: 1} + {a::: 2} == {a: 2}", True),
+    ("{a:: 1} + {a: 2} == {}", True), ("{a:: 1} + {a::: 2} == {a: 2}", True),
     ("std.primitiveEquals(1, 1)", True), ("std.primitiveEquals('a', 'b')", False), ("std.primitiveEquals([], [])", ERR),
     ("'a\\u0000' > 'a'", True), ("'\\uffff' < '\\ud800\\udc00'", True), ("'\u00e9' > 'z'", True), ("'Z' < 'a'", True),
 ]
